@@ -1,7 +1,7 @@
 """Source of MANIFEST.json (bin/mkmanifest renders it). One entry per claimed property."""
 
 HOOK_COMMITS = ["f529e9d", "ae52c2c"]
-FIX_COMMITS = ["c71e8ce", "b266a7b", "3c8b2f5", "8a433c1", "8c9bd77", "b6b128e", "d4a32a0", "05b2e41", "7858fec", "23c0ca4", "3feca11", "c1f5fc8", "212cd41", "2e485b4", "6db0415"]
+FIX_COMMITS = ["c71e8ce", "b266a7b", "3c8b2f5", "8a433c1", "8c9bd77", "b6b128e", "d4a32a0", "05b2e41", "7858fec", "23c0ca4", "3feca11", "c1f5fc8", "212cd41", "2e485b4", "6db0415", "949cfeb", "1ddf35d", "12cb9f2"]
 
 CHECKS = {
     "C19": dict(
@@ -218,6 +218,18 @@ CHECKS = {
              "sequential single-threaded response; repeated sequential calls must agree.",
         note="Real interleavings inside LazyLock/Once are provoked, not controlled; the model assumes std's guarantees (stated in DESIGN.md).",
         design_ref="8/C18",
+    ),
+    "C04": dict(
+        category="exploration",
+        technique="Totality.tla (outcome alphabet {ok, err}, work bound in day schedules) + Grammar.tla / Gen_Totality choose the structured input space (sentences, corruptions, numeric extremes in every numeric slot, single-character mutations); every call of the real API runs under catch_unwind + watchdog with the hook's work counter; Trace_Totality accepts only explained returns",
+        text="Inputs: every 8th (quick) / every (thorough) Gen_Grammar sentence and corruption, 944 numeric-extreme strings (27 values incl. 2^31, 2^63, "
+             "2^64 +-1 in 35 numeric slots), 1164 prefixes / deletions / duplications / swaps of 8 representative sentences, the repo corpus, random "
+             "expressions with all corners, seeded byte / Unicode noise, degenerate long inputs. Calls: parse, Display, normalize, is_constant, "
+             "schedule_at, state, next_change, iter_from.take(5) at NaiveDateTime::MIN / MAX, years +-262000, both bounds +-1 min, leap day, DST "
+             "night, random instants, under default, dense-holiday, bounded (0, 1 day, 30 years, TimeDelta::MAX) and zone + coordinates (poles, "
+             "antimeridian, 69.6 N; Apia, Lord_Howe, St_Johns) contexts. Verdict: any panic, watchdog expiry (30 s) or excess over the work bound.",
+        note="TLA+ says nothing about Rust panics: it contributes the input space and the acceptance rule; weakest fit of the technique (DESIGN.md 8/C04).",
+        design_ref="8/C04",
     ),
 }
 
